@@ -46,6 +46,10 @@ def scenarios(tier):
     for c in cfgs:
         for pre in pres:
             out.append(Scenario('main', pre=pre, pidfile=True, E=1 if tier == 'quick' else 1, **c))
+    # an on-demand watcher on a managed socket: a client connects after the initial start, so the watcher's background
+    # start (not an exclusive operation; paced by its warmup delay) is in progress when the termination event arrives
+    for pat in (['obedient'] if tier == 'quick' else ['obedient', 'stubborn']):
+        out.append(Scenario('main', pre='none', pidfile=True, E=1, nw=1, pat=pat, w=0, gw=0, socks=1, od=True))
     if tier != 'quick':
         out.append(Scenario('main', pre='none', pidfile=True, E=2, nw=2, pat='stubborn', w=0, gw=0, socks=1))
     for pc in PIDFILE_CASES:
@@ -131,8 +135,13 @@ def run(scn, ch):
         socks.append(('web', {'host': '127.0.0.1', 'port': 0}))
     if scn.socks >= 2:
         socks.append(('ux', {'path': scratch.path('ux.sock')}))
+    od = bool(scn.p.get('od'))
+    if od:
+        ws.append(('od', dict(cmd='worker --fd $(circus.sockets.web)', numprocesses=2, graceful_timeout=G, on_demand=True,
+                              use_sockets=True)))
     write_ini(ini, ws, circus={'warmup_delay': scn.gw}, sockets=socks)
-    world = World(ch, [WSpec('a', behaviours=pattern(scn.pat)), WSpec('b')])
+    world = World(ch, [WSpec('a', behaviours=pattern(scn.pat)), WSpec('b'), WSpec('od', behaviours=pattern(scn.pat))])
+    clients = []
     world.arbiters = []
     world.terminated = None
     world.exit_code = 'not-exited'
@@ -153,12 +162,22 @@ def run(scn, ch):
             for w in world.arbiter.watchers:
                 if w.name == 'a':
                     w.warmup_delay = float(scn.w)
+                if w.name == 'od':
+                    w.warmup_delay = 0.25
             stopped = lambda: loop.stop_requested()       # noqa: E731
             if world.terminated is None:
                 # the initial start of this incarnation
                 world.run(until=lambda w: stopped() or (w.slot() is None and not w.loop.has_ready() and
                                                         len(w.kernel.spawn_log) >= 1 and w.quiescent_main()),
                           horizon=8, menu=win.menu)
+                if od and not clients and not stopped() and world.terminated is None:
+                    import socket as _socket
+                    c = _socket.socket(_socket.AF_INET, _socket.SOCK_STREAM)
+                    c.settimeout(0.5)
+                    c.connect(world.arbiter.sockets['web'].getsockname())
+                    clients.append(c)
+                    world.run(until=lambda w: stopped() or w.terminated is not None or
+                              len(w.procs_of('od', [RUNNING])) >= 2, horizon=2.5, menu=win.menu)
                 # the pre-history
                 while state['pre_i'] < len(pre) and not stopped() and world.terminated is None:
                     cmd, props = pre[state['pre_i']]
@@ -179,7 +198,7 @@ def run(scn, ch):
             # after the termination event: the daemon must stop its loop within sum(g) + 1 s
             win.open = scn.E > 1
             t_sig = world.terminated[0] if world.terminated else CLOCK.now
-            limit = G * 4 + scn.gw * 2 + 1.0 + 1.0
+            limit = G * 4 + scn.gw * 2 + 1.0 + 1.0 + (G * 2 + 0.5 if od else 0)
             why = world.run(until=lambda w: loop.stop_requested(), horizon=max(0.0, t_sig + limit - CLOCK.now),
                             menu=win.menu if scn.E > 1 else None)
             win.open = False
@@ -240,6 +259,8 @@ def run(scn, ch):
                               [(p.state) for p in world.kernel.spawn_log]])
         return finish(world, res)
     finally:
+        for c in clients:
+            c.close()
         if not world.closed:
             world.close()
         scratch.close()
